@@ -30,6 +30,8 @@ pub mod cmd_decode;
 pub mod cmd_load;
 pub mod cmd_debug;
 pub mod cmd_ppu;
+pub mod cmd_raster;
+pub mod abi;
 
 fn main() {
   let args: Vec<String> = std::env::args().collect();
@@ -55,6 +57,7 @@ fn main() {
     "load" => cmd_load::run(&args[2..]),
     "debug" => cmd_debug::run(&args[2..]),
     "ppu" => cmd_ppu::run(&args[2..]),
+    "ppu-raster" => cmd_raster::run(&args[2..]),
     "version" => println!("gbv jit={}", cfg!(feature = "jit")),
     _ => { eprintln!("usage: gbv <command> ..."); std::process::exit(2); }
   }
